@@ -317,6 +317,9 @@ var pgpNames = []string{"Alice Example <alice@example.org>", "Bob (work) <bob@ex
 // fingerprint): the exhaustive hashed-area sweep of C11 then stays small.
 var pgpLean = false
 
+// pgpNamesOverride, when set, replaces the user IDs wellFormedKey picks.
+var pgpNamesOverride []string
+
 func wellFormedKey(r *Rng, pa algoChoice, subs []algoChoice, secret bool, nIDs int, flagsFor func(i int) byte) *entBuilder {
 	formatMode := r.Intn(4)
 	format := func() int {
@@ -337,6 +340,9 @@ func wellFormedKey(r *Rng, pa algoChoice, subs []algoChoice, secret bool, nIDs i
 	perm := r.Intn(len(pgpNames))
 	for i := 0; i < nIDs; i++ {
 		name := pgpNames[(perm+i*3)%len(pgpNames)]
+		if pgpNamesOverride != nil {
+			name = pgpNamesOverride[i%len(pgpNamesOverride)]
+		}
 		id := b.uid(name)
 		o := selfSigOpts(primary, hid, pickTime(r), flagsFor(i), pickLife(r))
 		o.primaryUID = i == 0
@@ -384,12 +390,90 @@ func wellFormedKey(r *Rng, pa algoChoice, subs []algoChoice, secret bool, nIDs i
 	return b
 }
 
+// ---------- user IDs that a parser is tempted to "normalise" ----------
+
+// RFC 4880 5.11: a user ID packet is any octet string. Self-signatures cover exactly the
+// stored octets, so an identity is listed under exactly those octets: white space at either
+// end (a trailing newline left by a script), white space only, nothing at all, very long
+// strings and octets that are not UTF-8 must all survive.
+var pgpOddNames = []struct{ tag, name string }{
+	{"leading-space", " lead <lead@example.org>"},
+	{"trailing-space", "trail <trail@example.org> "},
+	{"trailing-lf", "made by a script <script@example.org>\n"},
+	{"trailing-crlf", "made on windows <win@example.org>\r\n"},
+	{"leading-lf", "\nnewline first"},
+	{"tabs", "\ttabbed <tab@example.org>\t"},
+	{"nbsp", "\u00a0no-break space\u00a0"},
+	{"nel-and-vt", "\u0085next line\v\f"},
+	{"only-spaces", "   "},
+	{"only-lf", "\n"},
+	{"only-crlf", "\r\n"},
+	{"only-nbsp", "\u00a0"},
+	{"empty", ""},
+	{"inner-space-runs", "a  b   c"},
+	{"long-300", "long " + strings.Repeat("0123456789", 30)},
+	{"long-9000", strings.Repeat("very long user id ", 500)},
+	{"latin1", "J\xfcrgen M\xfcller <jm@example.org>"},
+	{"not-utf8", "\xff\xfe broken \x80\xc0 utf8 \xed\xa0\x80"},
+	{"nul", "nul\x00inside"},
+	{"trailing-nul", "nul at the end\x00"},
+}
+
+// oddUserIDKeys emits, for property prop, one small key per odd user ID and keys whose user IDs
+// differ only in case or white space; every identity is self-signed and must be listed as stored.
+func oddUserIDKeys(c *Ctx, prop string) {
+	plain := armorStyle{}
+	extra := func(b *entBuilder) Sx {
+		if prop == "C11" {
+			return SL{I(0), b.ref(1)}
+		}
+		return b.ref(1)
+	}
+	for i, n := range pgpOddNames {
+		r := NewRng(uint64(0x1D0000 + i))
+		var primary *pkey
+		switch i % 3 {
+		case 0:
+			primary = newEdDSAKey(1600000000+uint32(i), r)
+		case 1:
+			primary = newECKey(oidP256, 19, 1600000000+uint32(i), r, nil)
+		default:
+			primary = newRSAKey(0, 1, 1600000000+uint32(i))
+		}
+		b := newEnt(primary, false, r, func() int { return []int{0, 3}[i%2] })
+		id := b.uid(n.name)
+		o := selfSigOpts(primary, 8, 1600000000, 3, nil)
+		o.prefs, o.issuerFpr = false, nil
+		b.cert(id, nil, o, true)
+		pgpInspect(c, prop, "corpus-uid-"+n.tag, false, b.stream, extra(b), plain)
+	}
+	// identities that differ only in case or surrounding / inner white space are different identities
+	for i, names := range [][]string{
+		{"alice", "Alice", "ALICE", "alice ", " alice", "alice\n", "alice\t"},
+		{"Bob  <bob@example.org>", "Bob <bob@example.org>", "Bob <bob@example.org> ", "bob <bob@example.org>", "Bob <BOB@example.org>"},
+		{"", " ", "  ", "\n"},
+	} {
+		r := NewRng(uint64(0x1D1000 + i))
+		primary := newEdDSAKey(1600000100+uint32(i), r)
+		b := newEnt(primary, i == 1, r, func() int { return 3 })
+		for j, name := range names {
+			id := b.uid(name)
+			o := selfSigOpts(primary, 8, 1600000000+uint32(j)*86400, []byte{1, 2, 3, 0x20, 0x23, 0x0f, 0x2f}[j], nil)
+			o.prefs, o.issuerFpr = false, nil
+			b.cert(id, nil, o, true)
+		}
+		pgpInspect(c, prop, "corpus-uid-near-duplicates", i == 1, b.stream, extra(b), plain)
+	}
+}
+
 // ---------- C12 ----------
 
 func genC12(c *Ctx) {
 	fixedR := NewRng(0xC12C12) // corpus cases do not depend on VERIF_SEED
 	plain := armorStyle{}
 	// ---- corpus: witnesses of the defects found with this check (all repaired) ----
+	// user IDs are listed under exactly the stored octets (seeded change: TrimSpace in UserId.parse)
+	oddUserIDKeys(c, "C12")
 	// F7: EdDSA key whose point MPI has bit length 0 (slice bounds panic in newEdDSA)
 	{
 		k := &pkey{algo: 22, created: 0x5f000000, bits: -1, oid: pgpw_oidEd25519}
@@ -475,6 +559,12 @@ func genC12(c *Ctx) {
 	}
 	mpiCase("empty", nil)
 	mpiCase("one", []byte{0})
+	for bits := 65528; bits <= 65535; bits++ {
+		n := (bits + 7) / 8
+		mpiCase("near-2^16", cat(u16(bits), c.R.Bytes(n), []byte{0xaa, 0xbb}))
+		mpiCase("near-2^16-short", cat(u16(bits), c.R.Bytes(n-1)))
+		mpiCase("near-2^16-empty", u16(bits))
+	}
 	mpiCase("max", cat([]byte{0xff, 0xff}, c.R.Bytes(8192)))
 	mpiCase("max-short", cat([]byte{0xff, 0xff}, c.R.Bytes(8191)))
 	for i := 0; i < nm; i++ {
@@ -495,7 +585,7 @@ func genC12(c *Ctx) {
 	}
 
 	// ---- keyhash: one key packet; hash input, fingerprint, key id, attributes ----
-	keyhash := func(tag string, body []byte, wf bool) {
+	keyhash := func(tag string, body []byte, wf bool, k0 *pkey) {
 		k, ok := readRawKey(body)
 		ob := &oracleBuilder{seen: map[string]bool{}}
 		if ok {
@@ -519,7 +609,11 @@ func genC12(c *Ctx) {
 			binary.BigEndian.PutUint64(id[:], pk.KeyId)
 			return ObsOk(SL{SB(packet.VerifKeyHashInput(pk)), SB(pk.Fingerprint[:]), SB(id[:]), S(pk.KeyIdString()), attrs})
 		})
-		c.Emit("keyhash:"+tag, SL{SB(body), ob.entries, SL{Bool(wf), SB(sum[:])}}, impl)
+		ref := SL{Bool(wf), SB(sum[:]), SL{}}
+		if k0 != nil && wf {
+			ref[2] = keyRef(k0) // which key was written: the attributes are checked too
+		}
+		c.Emit("keyhash:"+tag, SL{SB(body), ob.entries, ref}, impl)
 	}
 	nk := 2
 	if c.Thorough() {
@@ -530,16 +624,16 @@ func genC12(c *Ctx) {
 		for _, a := range allKeys {
 			k := a.mk(pickTime(c.R), NewRng(c.R.U64()))
 			body := k.body()
-			keyhash("wf-"+a.name, body, true)
+			keyhash("wf-"+a.name, body, true, k)
 			if rep == 0 {
 				// malformed neighbours: truncations, one octet changed, trailing octets
 				for i := 0; i < 6; i++ {
-					keyhash("trunc-"+a.name, body[:c.R.Intn(len(body))], false)
+					keyhash("trunc-"+a.name, body[:c.R.Intn(len(body))], false, nil)
 					m := append([]byte{}, body...)
 					m[c.R.Intn(len(m))] ^= byte(1 << c.R.Intn(8))
-					keyhash("flip-"+a.name, m, false)
+					keyhash("flip-"+a.name, m, false, nil)
 				}
-				keyhash("trailing-"+a.name, cat(body, c.R.Bytes(1+c.R.Intn(4))), false)
+				keyhash("trailing-"+a.name, cat(body, c.R.Bytes(1+c.R.Intn(4))), false, nil)
 			}
 		}
 	}
@@ -549,10 +643,10 @@ func genC12(c *Ctx) {
 		kb := k.body()
 		rk, _ := readRawKey(kb)
 		n := cat([]byte{0, 0}, rk.mpis[0])
-		keyhash("rsa-leading-zero-octets", cat(kb[:6], u16(8*len(n)), n, mpiOf(rk.mpis[1])), false)
-		keyhash("rsa-inflated-bitcount", cat(kb[:6], u16(rk.bitsD[0]+3), rk.mpis[0], mpiOf(rk.mpis[1])), false)
-		keyhash("rsa-deflated-bitcount", cat(kb[:6], u16(rk.bitsD[0]-3), rk.mpis[0], mpiOf(rk.mpis[1])), false)
-		keyhash("rsa-e-4-octets", cat(kb[:6], mpiOf(rk.mpis[0]), mpiOf([]byte{1, 0, 0, 0, 1})), false)
+		keyhash("rsa-leading-zero-octets", cat(kb[:6], u16(8*len(n)), n, mpiOf(rk.mpis[1])), false, nil)
+		keyhash("rsa-inflated-bitcount", cat(kb[:6], u16(rk.bitsD[0]+3), rk.mpis[0], mpiOf(rk.mpis[1])), false, nil)
+		keyhash("rsa-deflated-bitcount", cat(kb[:6], u16(rk.bitsD[0]-3), rk.mpis[0], mpiOf(rk.mpis[1])), false, nil)
+		keyhash("rsa-e-4-octets", cat(kb[:6], mpiOf(rk.mpis[0]), mpiOf([]byte{1, 0, 0, 0, 1})), false, nil)
 		for _, l := range []int{0, 1, 2, 3, 4, 5, 9, 255} { // ECDH KDF field lengths
 			ek := newCv25519Key(1234567890, NewRng(5), nil)
 			kdf := append([]byte{byte(l)}, []byte{1, 8, 7, 0xaa, 0xbb, 0xcc, 0xdd, 0xee, 0xff}...)
@@ -561,24 +655,24 @@ func genC12(c *Ctx) {
 			} else {
 				kdf = cat(kdf, make([]byte, l+1-len(kdf)))
 			}
-			keyhash("ecdh-kdf-len-"+strconv.Itoa(l), cat(ek.body(), kdf), l >= 3 && l < 255)
+			keyhash("ecdh-kdf-len-"+strconv.Itoa(l), cat(ek.body(), kdf), l >= 3 && l < 255, nil)
 		}
 		for _, algo := range []byte{0, 4, 5, 20, 21, 23, 100, 255} {
-			keyhash("unknown-algo", cat([]byte{4, 0, 0, 0, 1, algo}, c.R.Bytes(20)), false)
+			keyhash("unknown-algo", cat([]byte{4, 0, 0, 0, 1, algo}, c.R.Bytes(20)), false, nil)
 		}
 		for _, v := range []byte{0, 2, 3, 5, 6} {
-			keyhash("version-"+strconv.Itoa(int(v)), cat([]byte{v}, kb[1:]), false)
+			keyhash("version-"+strconv.Itoa(int(v)), cat([]byte{v}, kb[1:]), false, nil)
 		}
 		for l := 0; l <= 12; l++ { // OID lengths
-			keyhash("oid-len-"+strconv.Itoa(l), cat([]byte{4, 0, 0, 0, 1, 22, byte(l)}, c.R.Bytes(l), mpiOf(cat([]byte{0x40}, c.R.Bytes(32)))), false)
+			keyhash("oid-len-"+strconv.Itoa(l), cat([]byte{4, 0, 0, 0, 1, 22, byte(l)}, c.R.Bytes(l), mpiOf(cat([]byte{0x40}, c.R.Bytes(32)))), false, nil)
 		}
 		for _, n := range []int{0, 1, 2, 31, 32, 33, 34, 64} { // EdDSA / cv25519 point lengths (F7)
 			pt := c.R.Bytes(n)
 			if n > 0 {
 				pt[0] = 0x40
 			}
-			keyhash("eddsa-point-"+strconv.Itoa(n), cat([]byte{4, 0, 0, 0, 1, 22}, oidField(pgpw_oidEd25519), u16(8*n), pt), false)
-			keyhash("cv25519-point-"+strconv.Itoa(n), cat([]byte{4, 0, 0, 0, 1, 18}, oidField(oidCv25519), u16(8*n), pt, kdfSHA256AES128), false)
+			keyhash("eddsa-point-"+strconv.Itoa(n), cat([]byte{4, 0, 0, 0, 1, 22}, oidField(pgpw_oidEd25519), u16(8*n), pt), false, nil)
+			keyhash("cv25519-point-"+strconv.Itoa(n), cat([]byte{4, 0, 0, 0, 1, 18}, oidField(oidCv25519), u16(8*n), pt, kdfSHA256AES128), false, nil)
 		}
 	}
 
@@ -644,6 +738,10 @@ func genC12(c *Ctx) {
 	}
 	for i := 0; i < nd; i++ {
 		sigattrs("dates-random", []byte{byte(c.R.U64())}, uint32(c.R.U64()), pickLife(c.R), uint32(c.R.U64()), nil)
+	}
+	// key creation time + lifetime at and beyond 2^32 (the sum must not wrap in 32 bits)
+	for _, kl := range [][2]uint32{{0xfffffff0, 0x10}, {0xfffffff0, 0x20}, {0x80000000, 0x80000000}, {0xffffffff, 0xffffffff}, {1, 0xffffffff}, {0xffffffff, 1}, {4294880896, 86400}} {
+		sigattrs("expiry-past-2^32", []byte{3}, 1000, u32p(kl[1]), kl[0], nil)
 	}
 	// repeated subpackets: the last key-expiration wins, key flags accumulate
 	sigattrs("two-lifetimes", []byte{1}, 1000, u32p(5), 2000, [][]byte{pgpw_subpacket(9, u32(86400*365), false)})
@@ -739,18 +837,24 @@ func genC12(c *Ctx) {
 	}
 	// key IDs and fingerprints that begin with zero octets (found by varying the creation time)
 	for _, want := range []struct {
-		tag string
-		at  int
-	}{{"keyid-leading-zero", 12}, {"fingerprint-leading-zero", 0}} {
+		tag    string
+		at     int
+		nibble bool
+	}{{"keyid-leading-zero", 12, false}, {"fingerprint-leading-zero", 0, false}, {"keyid-leading-zero-nibble", 12, true}, {"keyid-two-leading-zero-octets", 12, false}} {
 		r := NewRng(c.R.U64())
 		primary := newEdDSAKey(0, r)
 		for t := uint32(1600000000); ; t++ {
 			primary.created = t
-			if primary.fpr()[want.at] == 0 {
+			f := primary.fpr()
+			if want.nibble {
+				if f[want.at] != 0 && f[want.at] < 0x10 {
+					break
+				}
+			} else if f[want.at] == 0 && (want.tag != "keyid-two-leading-zero-octets" || f[want.at+1] == 0) {
 				break
 			}
 		}
-		keyhash(want.tag, primary.body(), true)
+		keyhash(want.tag, primary.body(), true, primary)
 		b := newEnt(primary, false, r, func() int { return 0 })
 		id := b.uid("zero <zero@example.org>")
 		b.cert(id, nil, selfSigOpts(primary, 8, primary.created, 3, nil), true)
@@ -1217,8 +1321,11 @@ func c11Keys(c *Ctx) []c11Key {
 		}
 		r := NewRng(c.R.U64())
 		pgpLean = len(out) > 0 // the first key carries signatures as GnuPG writes them
+		if len(out) == 0 {     // ... and user IDs with white space at the ends, so that the bit sweep covers them
+			pgpNamesOverride = []string{" Alice Example <alice@example.org>\n", "bob\t"}
+		}
 		b := wellFormedKey(r, byName(pa, s.primary), subs, s.secret, s.ids, func(int) byte { return 3 })
-		pgpLean = false
+		pgpLean, pgpNamesOverride = false, nil
 		out = append(out, c11Key{s.primary + "+" + strings.Join(s.subs, "+"), b, s.secret})
 	}
 	return out
@@ -1254,6 +1361,8 @@ func (b *entBuilder) mustVanish(g pgpRegion, mutated []byte) (names SL, fprs SL)
 
 func genC11(c *Ctx) {
 	plain := armorStyle{}
+	// corpus: identities whose user ID has white space at the ends, is empty, very long or not UTF-8
+	oddUserIDKeys(c, "C11")
 	keys := c11Keys(c)
 	sample := 2000
 	for ki, k := range keys {
